@@ -54,6 +54,7 @@ EXCLUDED = {
     "CForest": "multi-threaded by design; reads the wall clock",
     "AnytimePathShortening": "runs its sub-planners in threads",
 }
+TIE_ENVS = ("grid", "lat2")
 MAX_PLANNER_REPORTS = 6      # replays written per run for diverging planners; further ones are only counted
 NOT_CONSTRUCTED = {
     "STRRTstar": "needs a SpaceTimeStateSpace problem", "TSRRT": "needs a task-space configuration",
@@ -340,6 +341,85 @@ def oracle_rng(lines, out, pairs=()):
     return None
 
 
+# ---------------------------------------------------------------------------------- randomness outside ompl::RNG
+# Translator side of the property: every random engine in src/ompl that is NOT an ompl::RNG is outside the seed hierarchy
+# RNG::setSeed controls.  The sites are listed from the current source on every run and compared with this vetted list,
+# in which every entry says why the site is deterministic and which process-vs-process runs exercise it.  A site that is
+# new, gone or textually changed is a broken obligation; the tie-rich planner runs and the GNAT lattice runs then try
+# to turn it into a failing input.
+import re
+
+ENGINE_PATTERN = re.compile(
+    r"mt19937|random_device|minstd_rand|default_random_engine|ranlux|knuth_b|mersenne_twister|linear_congruential|"
+    r"subtract_with_carry|(?<![\w.>:])rand\s*\(\s*\)|\bsrand\s*\(|\b[dlm]rand48\b|[=(%+*/,]\s*random\s*\(\s*\)|std::shuffle|random_shuffle|"
+    r"boost::random|boost/random|random_vertex|random_edge|RNGType|rng_boost|rand_eng_|"
+    r"time\s*\(\s*(nullptr|NULL|0)\s*\)|std::(uniform_int|uniform_real|normal|bernoulli|discrete|exponential)_distribution|"
+    r"getpid\s*\(|hash<std::thread::id>")
+ENGINE_SKIP = ("util/RandomNumbers.h", "util/src/RandomNumbers.cpp")      # ompl::RNG itself: the model (Model/Rng*.lean)
+_FIXED_MT = ("default-constructed std::mt19937 = fixed seed 5489 in every process; shuffles the GNAT child order, i.e. decides "
+             "which of several exactly equidistant neighbours wins")
+_FIXED_MINSTD = "default-constructed boost::minstd_rand = fixed seed 1 in every process"
+_FIXED_DRE = "value-initialised std::default_random_engine = fixed default seed; optional shuffle of a precomputed sample file"
+ENGINE_ALLOW = {
+    ("datastructures/Permutation.h", "std::shuffle(begin(), begin() + n, generator_);"): (_FIXED_MT, "tie-rich planner pairs (grid, lat2) + gnat nts=1"),
+    ("datastructures/Permutation.h", "std::mt19937 generator_;"): (_FIXED_MT, "tie-rich planner pairs (grid, lat2) + gnat nts=1"),
+    ("multilevel/datastructures/BundleSpaceGraph.h", "#include <boost/random/linear_congruential.hpp>"): ("include", "-"),
+    ("multilevel/datastructures/BundleSpaceGraph.h", "#include <boost/random/variate_generator.hpp>"): ("include", "-"),
+    ("multilevel/datastructures/BundleSpaceGraph.h", "using RNGType = boost::minstd_rand;"): (_FIXED_MINSTD, "QRRT/QRRTStar/QMP/QMPStar pairs (ml3)"),
+    ("multilevel/datastructures/BundleSpaceGraph.h", "RNGType rng_boost;"): (_FIXED_MINSTD, "QRRT/QRRTStar/QMP/QMPStar pairs (ml3)"),
+    ("multilevel/datastructures/graphsampler/GraphSampler.h", "#include <boost/random/linear_congruential.hpp>"): ("include", "-"),
+    ("multilevel/datastructures/graphsampler/GraphSampler.h", "#include <boost/random/variate_generator.hpp>"): ("include", "-"),
+    ("multilevel/datastructures/graphsampler/GraphSampler.h", "using RNGType = boost::minstd_rand;"): (_FIXED_MINSTD, "QMP/QMPStar pairs (ml3)"),
+    ("multilevel/datastructures/graphsampler/GraphSampler.h", "RNGType rng_boost;"): (_FIXED_MINSTD, "QMP/QMPStar pairs (ml3)"),
+    ("multilevel/datastructures/graphsampler/src/RandomEdge.cpp", "BundleSpaceGraph::Edge e = boost::random_edge(graph, rng_boost);"): (_FIXED_MINSTD, "QMP/QMPStar pairs (ml3)"),
+    ("multilevel/datastructures/graphsampler/src/RandomVertex.cpp", "const Vertex v = boost::random_vertex(bundleSpaceGraph_->getGraph(), rng_boost);"): (_FIXED_MINSTD, "QMP/QMPStar pairs (ml3)"),
+    ("base/samplers/deterministic/PrecomputedSequence.h", "std::default_random_engine rand_eng_;"): (_FIXED_DRE, "not driven (needs a sample file)"),
+    ("base/samplers/deterministic/src/PrecomputedSequence.cpp", "rand_eng_ = std::default_random_engine{};"): (_FIXED_DRE, "not driven (needs a sample file)"),
+    ("base/samplers/deterministic/src/PrecomputedSequence.cpp", "std::shuffle(sample_set_.begin(), sample_set_.end(), rand_eng_);"): (_FIXED_DRE, "not driven (needs a sample file)"),
+}
+
+
+def engine_sites():
+    """(file relative to src/ompl, code text of the line with comments and blanks stripped) for every line of src/ompl
+    that mentions a random engine which is not an ompl::RNG"""
+    root = os.path.join(core.REPO, "src", "ompl")
+    out = []
+    for d, _dirs, files in os.walk(root):
+        for f in sorted(files):
+            if not f.endswith((".h", ".hpp", ".cpp", ".cc", ".ipp")):
+                continue
+            rel = os.path.relpath(os.path.join(d, f), root)
+            if rel in ENGINE_SKIP:
+                continue
+            try:
+                text = open(os.path.join(d, f), errors="replace").read()
+            except OSError:
+                continue
+            text = re.sub(r"/\*.*?\*/", lambda m: "\n" * m.group(0).count("\n"), text, flags=re.S)
+            for ln in text.split("\n"):
+                code = ln.split("//")[0].strip()
+                if code and ENGINE_PATTERN.search(code):
+                    out.append((rel, " ".join(code.split())))
+    return sorted(set(out))
+
+
+def engine_sweep(ck):
+    """returns the list of (kind, file, text) deviations from the vetted list"""
+    sites = engine_sites()
+    dev = []
+    for s in sites:
+        ck.count("engine-sites-outside-RNG")
+        if s not in ENGINE_ALLOW:
+            dev.append(("new-or-changed", s[0], s[1]))
+    for s in ENGINE_ALLOW:
+        if s not in sites:
+            dev.append(("vetted-site-gone-or-changed", s[0], s[1]))
+    ck.extra_cov["engine_sites_outside_RNG"] = [{"file": f, "code": c, "why_deterministic": ENGINE_ALLOW.get((f, c), ("NOT VETTED", ""))[0],
+                                                 "driven_by": ENGINE_ALLOW.get((f, c), ("", "nothing yet"))[1]} for f, c in sites]
+    ck.log("random engines outside ompl::RNG: %d site(s) in src/ompl, %d deviation(s) from the vetted list" % (len(sites), len(dev)))
+    return dev
+
+
 # ---------------------------------------------------------------------------------- planner runs
 def variant_env(v):
     """process variants: different environment-block size (moves the stack and, with ASLR, everything else),
@@ -433,6 +513,25 @@ def planner_jobs(ck, tier):
             if "starts=2" not in opts:
                 for pl in MLV:
                     jobs.append((pl, "ml3", s, b, opts))
+    # tie-rich problem classes (exact distance / cost ties are the normal case): a 60x60 grid world (compound of two
+    # DiscreteStateSpaces) and a real vector space with 33 representable positions per axis, every geometric planner with
+    # its DEFAULT nearest-neighbour structure, budgets that grow trees far beyond the 50 elements at which a GNAT splits
+    tie_seeds = seeds[:2] if tier == "quick" else seeds[:4]
+    for s in tie_seeds:
+        for b in ((700, 3000) if tier == "quick" else (300, 1500, 4000, 8000)):
+            for pl in GEO + ROADMAP:
+                for e in TIE_ENVS:
+                    jobs.append((pl, e, s, min(b, 1000) if pl in ("LazyPRM", "LazyPRMstar") else b))
+    # a zero-extent dimension in a 3-D real vector space (random default projection computed from the bounds)
+    for s in tie_seeds:
+        for b in (300, 1500):
+            for pl in GEO:
+                jobs.append((pl, "box3z", s, min(b, 1000) if pl in ("LazyPRM", "LazyPRMstar") else b))
+    for pl in GEO:
+        jobs.append((pl, "lat2", tie_seeds[0], 1500, "hist=scs"))
+        jobs.append((pl, "grid", tie_seeds[0], 1500, "hist=ss"))
+        jobs.append((pl, "lat2", tie_seeds[0], 600, "ptc=iter"))
+        jobs.append((pl, "grid", tie_seeds[0], 600, "ptc=iter"))
     return sorted(set(jobs), key=lambda j: (j[0], j[1], j[2], j[3], j[4] if len(j) > 4 else ""))
 
 
@@ -476,7 +575,13 @@ def judge_planner_pair(ck, plain, job, ra, rb, excluded=False):
     if excluded:
         ck.count("excluded-planner-diverged:" + pl)
         return True
-    record = {"engine": "rng", "kind": "planner-divergence", "planner": pl}
+    record = {"engine": "rng", "kind": "planner-divergence", "planner": pl,
+              "env_class": "tie-rich" if job[1] in TIE_ENVS else "continuous"}
+    if job[1] in TIE_ENVS:
+        # tell "depends on the heap layout" (two runs in one configuration agree) from "not even reproducible in one
+        # configuration" (an engine outside the seed hierarchy, e.g. one seeded from std::random_device)
+        again = run_plan(ck, plain, job, 0)
+        record["same_configuration_diverges"] = again["result"] != ra["result"]
     if pl == "SPARSdb:addpath":
         # two recorded defects meet here; tell them apart: F201 (std::random_device) makes even two runs in the SAME
         # configuration differ, F202 (GNAT orders exact distance ties by element address) needs a different heap layout
@@ -496,7 +601,7 @@ def judge_planner_pair(ck, plain, job, ra, rb, excluded=False):
     ta = run_plan(ck, plain, job, 0, trace=True)
     tb = run_plan(ck, plain, job, 1, trace=True)
     d = first_trace_diff(ta["trace"], tb["trace"])
-    differing = [k for k in ("status", "approx", "evals", "polls", "qhash", "path", "pdata")
+    differing = [k for k in ("status", "approx", "evals", "polls", "qhash", "path", "pdata", "proj")
                  if field(ra["result"], k) != field(rb["result"], k)]
     record["trigger"] = trigger
     ck.sample({"diverged": plan_line(job), "A": ra["result"], "B": rb["result"], "trigger": trigger}, limit=12)
@@ -603,8 +708,10 @@ def gnat_check(ck, plain, quick):
     ORDER of the answers (and which of several equidistant elements make the cut at k) must not depend on the layout."""
     r = ck.rng.fork("gnat")
     jobs = []
-    for i in range(4 if quick else 16):
-        jobs.append((1 + r.below(1 << 30), r.choice([12, 20, 30, 41]), r.choice([1, 4, 5, 9, 13]), i % 2))
+    for i in range(8 if quick else 24):
+        # k = 2, 3, 4, 7, 11: the k-th place falls inside a shell of equidistant lattice points (which of them make the cut
+        # is decided by the traversal order); side >= 12: far more than the 50 elements at which the GNAT splits
+        jobs.append((1 + r.below(1 << 30), r.choice([12, 20, 30, 41]), r.choice([1, 2, 3, 4, 5, 7, 9, 11, 13]), i % 2))
     bad = 0
     for seed, side, k, nts in jobs:
         line = "gnat seed=%d side=%d k=%d%s" % (seed, side, k, " nts=1" if nts else "")
@@ -1177,6 +1284,9 @@ def run(ck):
     if aslr == "0":
         ck.notes.append("ASLR is off on this machine: address-dependent behaviour is varied only by the environment-block size")
 
+    # ---- randomness outside ompl::RNG: list the sites from the current source, compare with the vetted list ----
+    engine_dev = engine_sweep(ck)
+
     # ---- rng protocol: corpus, seeding, reseed histories, streams, adversarial --------------------
     tasks = []
     for name, lines in corpus():
@@ -1324,6 +1434,18 @@ def run(ck):
     ck.extra_cov["planners_excluded"] = EXCLUDED
     ck.extra_cov["planners_not_constructed"] = NOT_CONSTRUCTED
     ck.log("planner determinism: %d (planner, env, seed, budget) cases in two processes each, %d diverging" % (len(jobs), nbad))
+    if engine_dev:
+        what = "; ".join("%s %s: %s" % d for d in engine_dev[:8])
+        ck.notes.append("random engines outside ompl::RNG deviate from the vetted list: " + what)
+        if not any(fi for _p, fi in ck.violations):
+            # no run turned the deviation into a failing input: the obligation "every engine outside ompl::RNG is vetted as
+            # deterministic and driven" is broken all the same
+            ck.report({"engine": "rng", "kind": "engine-sweep", "deviations": [list(d) for d in engine_dev]}, found_input=False,
+                      engine="rng", observed=[list(d) for d in engine_dev],
+                      obligation="every random engine in src/ompl that is not an ompl::RNG is on the vetted list (deterministic by "
+                                 "construction, driven by a process-vs-process run): " + what)
+        else:
+            ck.log("the engine sweep had flagged: " + what)
     return 0
 
 
